@@ -16,7 +16,8 @@
    Scope (documented in tools/props/c12.py): a subscription / publication is always taken through
    add_* -> driver's "ready" event -> find_* in one step, so the application holds the only strong handle;
    the liveness timers of C11 never fire (fresh driver heartbeat, no client heartbeat counter, huge
-   inter-service timeout); only the resource-check timer matters.   Definitions only. *)
+   inter-service timeout); only the resource-check timer matters.
+   Fault: the to-driver ring may be full (`ringfull`, operations Stall / Drain): commands are refused.   Definitions only. *)
 Require Import V.Base.MachineInt V.Generated.GenConsts V.Model.CondTimers.
 Open Scope Z_scope.
 
